@@ -56,13 +56,16 @@ def litTextNeg (name : Str) : Str :=
   | none => "  \\overline{".toList ++ name ++ ['}']
   | some k => "{\\overline{".toList ++ name.take k ++ ['}'] ++ name.drop k ++ ['}']
 
+/-- `\\overline{` -/
+def overlineOpen : Str := ['\\', 'o', 'v', 'e', 'r', 'l', 'i', 'n', 'e', '{']
+
 /-- the text of a literal without the alignment blanks (what `strip()` leaves of `littext[±v]`) -/
 def litCore (name : Str) (neg : Bool) : Str :=
   if neg then
     match splitPoint name with
-    | none => "\\overline{".toList ++ name ++ ['}']
-    | some k => "{\\overline{".toList ++ name.take k ++ ['}'] ++ name.drop k ++ ['}']
-  else '{' :: name ++ ['}']
+    | none => overlineOpen ++ name ++ ['}']
+    | some k => '{' :: (overlineOpen ++ (name.take k ++ '}' :: name.drop k) ++ ['}'])
+  else '{' :: (name ++ ['}'])
 
 /-- `littext[l]`; `names` = `all_variable_labels('x_{}')`; a literal without entry is a `KeyError` -/
 def litText (opb : Bool) (names : List Str) (l : Int) : Except Err Str :=
